@@ -55,6 +55,17 @@ func Scan(src []byte) (sc Scanned) {
 	return
 }
 
+// SafeScan is Scan with a panic of the real scanner reported instead of propagated.
+func SafeScan(src []byte) (sc Scanned, panicked string) {
+	defer func() {
+		if e := recover(); e != nil {
+			panicked = fmt.Sprint(e)
+		}
+	}()
+	sc = Scan(src)
+	return
+}
+
 // ErrAtField renders the scanner error positions as the driver's `<scanErrAt>` field.
 func (sc *Scanned) ErrAtField() string {
 	if len(sc.ErrAt) == 0 {
